@@ -271,6 +271,45 @@ def selection_always_validates(ctx, rule='C12.selection-validates'):
     return res
 
 
+def header_views_confined(ctx, rule='C12.header-views-confined'):
+    """the bytes of a header page are looked at as a header struct only by header selection (which validates them) and by the code that BUILDS header images (creation,
+    commit): any other reader -- a sanity assertion in begin that peeks at the "other" header, a statistics function -- reads a page that may be torn or damaged, and acts on
+    what it finds there"""
+    res = []
+    F = ctx.facts
+    try:
+        (hdr,) = ctx.need('DBInner::meta')
+    except AnchorError as e:
+        return [unresolved(rule, str(e))]
+    views = [g for g in F.fns if g.self_adt and last_seg(g.self_adt) == 'Page' and g.kind != 'Closure' and
+             any(t in g.locals[0]['ty'] for t in ('meta::Meta', 'meta::OldMeta')) and g.locals[0]['ty'].startswith('&')]
+    f0 = floor(rule, 'accessors that view a page as a header struct', len(views), 2)
+    if f0:
+        return [f0]
+    import c02, c03
+    builders = set(c02.image_builders(ctx))
+    init = ctx.A.get('init_file')
+    allowed = {hdr} | set(getattr(ctx.A, 'hdr_helpers', ())) | builders | ({init} if init is not None else set())
+    allowed |= {g for g in F.reachable_fns([hdr]) if g is not hdr and c03._only_via(F, g, hdr)}
+    if init is not None:
+        allowed |= {g for g in F.reachable_fns([init]) if g is not init and c03._only_via(F, g, init)}
+    n = 0
+    for fn in sorted(F.fns, key=lambda g: g.path):
+        owner = (fn.owner or fn) if fn.kind == 'Closure' else fn
+        for v in views:
+            for bb, t, c in calls_to_fn(F, fn, v):
+                n += 1
+                if owner in allowed or owner in views:
+                    continue
+                res.append(bad(rule, '%s | reads a header page outside header selection (%s)' % (fn.qual, v.qual),
+                               '%s views a page as a header through %s at %s without being the validating selection or a builder of header images: the page it looks at may be the '
+                               'damaged or half-written one, and whatever it decides (an assertion, a comparison of transaction ids) is decided on unvalidated bytes' % (fn.qual, v.qual, fn.loc(bb)),
+                               where=fn.loc(bb)))
+    if not any(not r.ok for r in res):
+        res.append(ok(rule, 'header structs are viewed at %d sites, all in header selection, creation and the commit\'s image builder' % n, sites=n))
+    return res
+
+
 def select_total(ctx, rule='C12.select-total'):
     """a header is returned only where its own validity test succeeded; each validated header is returned on some path;
     when both are valid the transaction ids are compared"""
@@ -519,6 +558,7 @@ def run(ctx, tier):
     results += validate_before_trust(ctx)
     results += select_total(ctx)
     results += selection_always_validates(ctx)
+    results += header_views_confined(ctx)
     results += seal_last(ctx)
     results += kind_exact(ctx)
     results += header_extent(ctx)
@@ -534,6 +574,7 @@ def run(ctx, tier):
     results += c06.open_existing(ctx, rule='C12.open-existing')
     # a refusal added to open in front of header selection looks at one header before the other has had its chance
     results += c15.open_refusals(ctx, rule='C12.open-refusals')
+    results += c06.shared_freelist(ctx, rule='C12.shared-freelist')
     import c03
     results += c03.release_sites(ctx, rule='C12.release-site')
     return dict(
